@@ -290,6 +290,14 @@ impl KademliaPeer {
     }
 }
 
+#[cfg(feature = "verif")]
+impl KademliaPeer {
+    /// Verification hook: peer ID of the entry.
+    pub fn verif_peer(&self) -> PeerId {
+        self.peer
+    }
+}
+
 impl TryFrom<&schema::kademlia::Peer> for KademliaPeer {
     type Error = ();
 
